@@ -116,8 +116,17 @@ pub fn my_tid() -> Option<usize> {
     TID.with(|t| t.get())
 }
 
+static OVER_WAITS: std::sync::atomic::AtomicU64 = std::sync::atomic::AtomicU64::new(0);
+pub const SPIN_MSG: &str = "the wait seam was entered more than 20000 times after the experiment had ended: the loop spins inside its wait";
+
+/// Did this panic payload come from the spin guard of `before_wait`?
+pub fn is_spin_panic(p: &(dyn std::any::Any + Send)) -> bool {
+    p.downcast_ref::<String>().map(|s| s.contains("wait seam was entered")).unwrap_or(false)
+}
+
 /// Start a controlled execution on the calling thread (tid 0) with `n` threads in total.
 pub fn begin(tape: Tape, n: usize) {
+    OVER_WAITS.store(0, std::sync::atomic::Ordering::SeqCst);
     let mut s = lock();
     s.active = true;
     s.over = false;
@@ -489,10 +498,27 @@ pub fn before_wait(fd: i32, timeout: Option<Duration>) -> Option<Duration> {
     let Some(me) = my_tid() else { return timeout };
     let mut s = lock();
     if !s.active || s.over {
+        // The experiment is over and every further wait returns at once so that the loop call in
+        // progress can finish. A subject that keeps coming back here is spinning in a wait loop
+        // of its own: unwind out of it (the drivers catch this and report it).
+        let n = OVER_WAITS.fetch_add(1, std::sync::atomic::Ordering::SeqCst);
+        if n > 20_000 {
+            drop(s);
+            OVER_WAITS.store(0, std::sync::atomic::Ordering::SeqCst);
+            panic!("{SPIN_MSG}");
+        }
         return Some(Duration::ZERO);
     }
+    // An execution lasts milliseconds and the clock is the real one: a wait bounded only by a
+    // deadline a minute or more away (a far timer) cannot time out within the horizon of the
+    // experiment and is a blocking wait like an unbounded one.
+    let far = Duration::from_secs(60);
     match timeout {
         None => {
+            s.threads[me] = Status::BlockedEpoll(fd);
+            yield_from(s, me, "wait.enter");
+        }
+        Some(t) if t >= far => {
             s.threads[me] = Status::BlockedEpoll(fd);
             yield_from(s, me, "wait.enter");
         }
